@@ -5,4 +5,4 @@
 -/
 import SarpyModel.Props.C11
 import SarpyModel.Props.C11W
-import SarpyModel.Bridge.Cphd
+import SarpyModel.Bridge.Crsd
